@@ -14,10 +14,10 @@ Ltac Zify.zify_post_hook ::= Z.div_mod_to_equations.
 
 
 
-Ltac evh := cbn [eval lookup update set_var String.eqb Ascii.eqb Bool.eqb vars inb outb truth cast binop_int b2z fst snd negb budget_var fail_var strm_var];
+Ltac evh := cbn [eval lookup update set_var String.eqb Ascii.eqb Bool.eqb vars inb outb truth cast binop_int b2z fst snd negb budget_var fail_var strm_var cells_var];
   change (0 =? 0) with true; change (1 =? 0) with false; cbn [negb b2z].
 Ltac evch := cbn [prog_env eval_args callee_init finish_call copy_in copy_out try_update update lookup combine map app String.append
-                 String.eqb Ascii.eqb Bool.eqb fparams flocals fbody vars inb outb budget_var fail_var strm_var cell_token List.length Nat.eqb eval set_var cast
+                 String.eqb Ascii.eqb Bool.eqb fparams flocals fbody vars inb outb budget_var fail_var strm_var cells_var cell_token List.length Nat.eqb eval set_var cast
                  prog_sbdf_allocate_array prog_sbdf_dispose_array prog_sbdf_str_create_len
                  prog_sbdf_str_destroy
                  truth binop_int b2z negb];
@@ -26,10 +26,12 @@ Ltac evch := cbn [prog_env eval_args callee_init finish_call copy_in copy_out tr
 Section WithStream.
 (* the unread bytes of the input stream: none of the functions of this section touches it *)
 Variable sx : list Z.
+(* ... nor the cell heap (structs): it is carried along so that functions working on structs can call these *)
+Variable hc : list (option (list val)).
 
 (* ================================================================== sbdf_allocate_array *)
 Definition aa (n : Z) (a bv : val) (k : Z) (m o : list Z) : state :=
-  {| vars := [("length"%string, VInt n); ("alloc"%string, a); (budget_var, bv); (fail_var, VInt k); (strm_var, VBytes sx)]; inb := m; outb := o |}.
+  {| vars := [("length"%string, VInt n); ("alloc"%string, a); (budget_var, bv); (fail_var, VInt k); (strm_var, VBytes sx); (cells_var, VHeap hc)]; inb := m; outb := o |}.
 
 
 
@@ -46,9 +48,9 @@ Proof.
   assert (Hst : upd_range (Z.to_nat (zlen m)) [n mod u32 mod 256; n mod u32 / 256 mod 256; n mod u32 / 65536 mod 256; n mod u32 / 16777216 mod 256]
                   (m ++ repeat junk (Z.to_nat 4) ++ repeat junk (Z.to_nat n)) = m ++ le32 n ++ repeat junk (Z.to_nat n)).
   { unfold zlen. rewrite Nat2Z.id. rewrite upd_range_at by reflexivity. reflexivity. }
-  assert (HM : eval (EMalloc sz) {| vars := [("length"%string, VInt n); ("alloc"%string, a); (budget_var, bv); (fail_var, VInt k); (strm_var, VBytes sx)]; inb := m; outb := o |}
-     = if k =? 0 then Some (VNull, {| vars := [("length"%string, VInt n); ("alloc"%string, a); (budget_var, bv); (fail_var, VInt (-1)); (strm_var, VBytes sx)]; inb := m; outb := o |})
-       else Some (VPtr RIn (zlen m), {| vars := [("length"%string, VInt n); ("alloc"%string, a); (budget_var, bv); (fail_var, VInt (next_fail k)); (strm_var, VBytes sx)];
+  assert (HM : eval (EMalloc sz) {| vars := [("length"%string, VInt n); ("alloc"%string, a); (budget_var, bv); (fail_var, VInt k); (strm_var, VBytes sx); (cells_var, VHeap hc)]; inb := m; outb := o |}
+     = if k =? 0 then Some (VNull, {| vars := [("length"%string, VInt n); ("alloc"%string, a); (budget_var, bv); (fail_var, VInt (-1)); (strm_var, VBytes sx); (cells_var, VHeap hc)]; inb := m; outb := o |})
+       else Some (VPtr RIn (zlen m), {| vars := [("length"%string, VInt n); ("alloc"%string, a); (budget_var, bv); (fail_var, VInt (next_fail k)); (strm_var, VBytes sx); (cells_var, VHeap hc)];
                                         inb := m ++ repeat junk (Z.to_nat (n + 4)); outb := o |})).
   { unfold sz. evh. replace (0 <=? n) with true by lia. evh. chk7. evh. replace ((0 <=? n) && (0 <=? 4)) with true by lia.
     rewrite (Z.mod_small (n + 4)) by lia. replace (0 <=? n + 4) with true by lia. evh.
@@ -67,7 +69,7 @@ Qed.
 
 (* ================================================================== sbdf_str_create_len *)
 Definition cl (sv : val) (n : Z) (p bv : val) (k : Z) (m o : list Z) : state :=
-  {| vars := [("str"%string, sv); ("length"%string, VInt n); ("ptr"%string, p); (budget_var, bv); (fail_var, VInt k); (strm_var, VBytes sx)]; inb := m; outb := o |}.
+  {| vars := [("str"%string, sv); ("length"%string, VInt n); ("ptr"%string, p); (budget_var, bv); (fail_var, VInt k); (strm_var, VBytes sx); (cells_var, VHeap hc)]; inb := m; outb := o |}.
 
 (* the bytes a (possibly null) source pointer stands for *)
 Definition src_ok (sv : val) (n : Z) (m : list Z) (payload : list Z) : Prop :=
@@ -172,7 +174,7 @@ Qed.
 
 (* ================================================================== releasing: nothing is read or written *)
 Definition da (p : Z) (bv : val) (k : Z) (m o : list Z) : state :=
-  {| vars := [("array"%string, VPtr RIn p); (budget_var, bv); (fail_var, VInt k); (strm_var, VBytes sx)]; inb := m; outb := o |}.
+  {| vars := [("array"%string, VPtr RIn p); (budget_var, bv); (fail_var, VInt k); (strm_var, VBytes sx); (cells_var, VHeap hc)]; inb := m; outb := o |}.
 
 Lemma dispose_array_bs p bv k m o : 4 <= p <= zlen m ->
   bsE prog_env (fbody prog_sbdf_dispose_array) (da p bv k m o) (ONormal (da p bv k m o)).
@@ -186,7 +188,7 @@ Qed.
 (* ================================================================== as calls *)
 Theorem str_create_len_source q n m k : 0 <= n -> n + 1 <= int_max -> 0 <= q -> q + n <= zlen m ->
   exists f0, forall f, (f0 <= f)%nat -> exists fin,
-    callH prog_env f prog_sbdf_str_create_len [VPtr RIn q; VInt n] m k sx =
+    callC prog_env f prog_sbdf_str_create_len [VPtr RIn q; VInt n] m k sx hc =
       OReturn (if k =? 0 then VNull else VPtr RIn (zlen m + 4)) fin /\
     inb fin = (if k =? 0 then m else str_mem m (firstn (Z.to_nat n) (skipn (Z.to_nat q) m)) []).
 Proof.
@@ -199,7 +201,7 @@ Qed.
 
 
 Definition ds (p : Z) (bv : val) (k : Z) (m o : list Z) : state :=
-  {| vars := [("str"%string, VPtr RIn p); (budget_var, bv); (fail_var, VInt k); (strm_var, VBytes sx)]; inb := m; outb := o |}.
+  {| vars := [("str"%string, VPtr RIn p); (budget_var, bv); (fail_var, VInt k); (strm_var, VBytes sx); (cells_var, VHeap hc)]; inb := m; outb := o |}.
 
 Lemma str_destroy_bs p bv k m o : 4 <= p <= zlen m ->
   bsE prog_env (fbody prog_sbdf_str_destroy) (ds p bv k m o) (ONormal (ds p bv k m o)).
